@@ -14,7 +14,7 @@ RULE = (
     "non-unit radius} x face centres {absent, lon/lat, xyz, both} x edge centres {absent, lon/lat, xyz, both} "
     "(supplied centres are deliberately offset from the corner mean so supplied and derived values cannot be "
     "confused) x longitudes given in 0..360 or -180..180 x meshes with nodes on a pole / the antimeridian / the "
-    "prime meridian x first-access order of the six coordinate groups (720 orders; sampled in quick, thorough "
+    "prime meridian x first-access order of the six coordinate groups (720 orders; components of a group read lon,lat / x,y,z or reversed; ranges checked at the first read and again at the end; sampled in quick, thorough "
     "walks all 720 on small meshes). Oracle: independent lon/lat <-> unit-vector conversion. Non-trivial = "
     "provenance other than lon/lat-nodes-only, or a node within 1 degree of a pole / the antimeridian."
 )
@@ -35,12 +35,12 @@ def cases(tier, seed):
         d = gen.random_mesh(rng, 60 if tier == "quick" else 250)
         yield {"mesh": d, "node": NODE_PROV[int(rng.integers(0, 4))], "face": CEN_PROV[int(rng.integers(0, 4))],
                "edge": CEN_PROV[int(rng.integers(0, 4))], "lon360": bool(rng.random() < 0.5),
-               "order": int(rng.integers(0, 720)), "cseed": int(rng.integers(0, 10**6)), "cradius": bool(rng.random() < 0.3)}
+               "order": int(rng.integers(0, 720)), "cseed": int(rng.integers(0, 10**6)), "cradius": bool(rng.random() < 0.3), "rev": bool(rng.random() < 0.5)}
     if tier == "thorough":
         small = {"family": "polyhedron", "name": "prism3", "ops": [["snap", ["node_npole", 0]]]}
         for o in range(720):
             yield {"mesh": small, "node": NODE_PROV[o % 4], "face": CEN_PROV[(o // 4) % 4], "edge": CEN_PROV[(o // 16) % 4],
-                   "lon360": bool(o % 2), "order": o, "cseed": o}
+                   "lon360": bool(o % 2), "order": o, "cseed": o, "rev": bool((o // 2) % 2)}
 
 
 def _lon(lon, lon360):
@@ -102,11 +102,15 @@ def build(case, m):
     return g, supplied
 
 
-def read_group(g, name):
+def read_group(g, name, rev=False):
+    """Reads one coordinate group through the public properties; copies, so that a later in-place rewrite of the
+    stored arrays cannot alter what was observed.  rev: read the components in reverse order (lat before lon, z..x)."""
     kind, rep = name.split("_")
-    if rep == "ll":
-        return np.asarray(getattr(g, kind + "_lon").values, dtype=float), np.asarray(getattr(g, kind + "_lat").values, dtype=float)
-    return tuple(np.asarray(getattr(g, kind + "_" + c).values, dtype=float) for c in "xyz")
+    comps = ["lon", "lat"] if rep == "ll" else ["x", "y", "z"]
+    got = {}
+    for c in (comps[::-1] if rev else comps):
+        got[c] = np.array(getattr(g, kind + "_" + c).values, dtype=float, copy=True)
+    return tuple(got[c] for c in comps)
 
 
 def run_case(ctx, case):
@@ -119,9 +123,15 @@ def run_case(ctx, case):
     prov = {"node": case["node"], "face": case["face"] if case["node"] != "xyz" else "none", "edge": case["edge"] if case["node"] != "xyz" else "none"}
     first = {}
     order = [GROUPS[k] for k in ORDERS[case["order"]]]
+    rev = bool(case.get("rev"))
     for name in order:
         try:
-            first[name] = read_group(g, name)
+            first[name] = read_group(g, name, rev=rev)
+            if name.endswith("_ll"):
+                lon, lat = first[name]
+                ok = bool(np.all(lon >= -180.0) and np.all(lon <= 180.0) and np.all(lat >= -90.0) and np.all(lat <= 90.0))
+                ctx.check("lon_lat_range", ok, {"kind": name.split("_")[0], "prov": prov[name.split("_")[0]], "at": "first_read", "lat_first": rev},
+                          {"lon_min": float(lon.min()), "lon_max": float(lon.max()), "order": order, "case": case})
         except Exception as e:
             ctx.check("no_exception", False, {"stage": "read", "group": name, "prov": prov[name.split("_")[0]], "exc": core.exc_sig(e)}, {"exc": repr(e), "order": order, "case": case})
             return
